@@ -86,6 +86,8 @@ def enc_query(q):
             o[key] = str(sym(v))
         elif key in ("x", "y"):
             o[key] = qstr(exact(v))
+        elif key == "ents":
+            o[key] = [[str(sym(c)), str(sym(u)), str(int(e))] for c, u, e in v]
     return o
 
 
@@ -120,6 +122,16 @@ def apply_reg(db, op):
         return dict(err="runtime")
     except Exception as e:
         return dict(err=err_kind(e))
+
+
+def describe(quantity):
+    """a Quantity (simple or derived) canonically: composing map in its order, composing categories and units, strings"""
+    cats, units = quantity.GetComposingCategories(), quantity.GetComposingUnits()
+    if isinstance(cats, str):
+        cats, units = (cats,), ((units, 1),)
+    return dict(ents=[[c, ue[0], int(ue[1])] for c, ue in quantity.GetCategoryToUnitAndExps().items()],
+                cats=list(cats), units=[[u, int(e)] for u, e in units], unit=quantity.GetUnit(),
+                category=quantity.GetCategory(), qtype=quantity.GetQuantityType())
 
 
 def ask(db, q):
@@ -161,6 +173,17 @@ def ask(db, q):
             return dict(ok=dict(s=db.GetQuantityType(q["u"]) or ""))
         if k == "catInfo":
             return dict(ok=dict(ci=ci_fields(db.GetCategoryInfo(q["c"]))))
+        if k in ("mul", "div"):
+            a, b = Scalar(q["x"], q["u1"], q["c1"]), Scalar(q["y"], q["u2"], q["c2"])
+            r = a * b if k == "mul" else a / b
+            return dict(ok=dict(describe(r.GetQuantity()), x=float(r.GetValue()).hex()))
+        if k in ("derived", "createDerived"):
+            from collections import OrderedDict
+
+            from barril.units import ObtainQuantity, Quantity
+
+            m = OrderedDict((c, [u, e]) for c, u, e in q["ents"])
+            return dict(ok=describe(ObtainQuantity(m) if k == "derived" else Quantity.CreateDerived(m)))
         # --- asked on the real code only (oracle / search of C15; the model has no such query kinds)
         if k == "isValidU":
             return dict(ok=dict(b=bool(Scalar(q["x"], q["u"]).IsValid())))
@@ -299,6 +322,19 @@ def cmp_answer(q, io, mo, limits=None):
     a, b = io["ok"], mo["ok"]
     if a is None or b is None:
         return None if a is None and b is None else "shape: impl=%s model=%s" % (a, b)
+    if ("ents" in a) != ("ents" in b):
+        return "shape: impl=%s model=%s" % (a, b)
+    if "ents" in a:
+        me = [[unsym(int(c)), unsym(int(u)), int(e)] for c, u, e in b["ents"]]
+        if a["ents"] != me:
+            return "composing map differs: impl=%r model=%r" % (a["ents"], me)
+        if a["cats"] != [e[0] for e in me] or a["units"] != [[e[1], e[2]] for e in me]:
+            return "composing categories/units %r %r do not follow the composing map %r" % (a["cats"], a["units"], me)
+        for key in ("unit", "category", "qtype"):
+            if a[key] != unsym(int(b[key])):
+                return "%s string differs: impl=%r model=%r" % (key, a[key], unsym(int(b[key])))
+        a = {k: v for k, v in a.items() if k not in ("ents", "cats", "units", "unit", "category", "qtype")}
+        b = {k: v for k, v in b.items() if k not in ("ents", "unit", "category", "qtype")}
     for key in ("cat", "unit", "s"):
         if (key in a) != (key in b) or (key in a and a[key] != unsym(int(b[key]))):
             return "%s differs: impl=%r model=%r" % (key, a.get(key), unsym(int(b[key])) if key in b else None)
